@@ -5,7 +5,7 @@ pairwise sign-clash parities, the logical closed forms and the stabilizer / logi
 pairing table (lines crossing in the single qubit `(1, 1, 1)`; a line inside a plane has `Lx` resp.
 `Ly` qubits, an even number when two logical qubits exist).
 -/
-import PanqecVerif.Proofs.LatRotatedToric3DCode8
+import PanqecVerif.Proofs.LatRotatedToric3DCode8b
 open Panqec Panqec.Lat3Db
 namespace Panqec.RotatedToric3DCode
 
